@@ -110,16 +110,23 @@ def reducible(ctx, fx):
             al = fn.aliases()
             det = []
             loops = [b for b in fn.blocks.values() if (b.get("term") or {}).get("cls") in ("ForStmt", "WhileStmt")]
-            if len(loops) != 1 or S(lit(loops[0]["term"]["cond"])[0]) != "(i < this->data_.size())":
+            # the loop variable is whatever the loop condition compares with data_.size()
+            iv = None
+            if len(loops) == 1 and loops[0]["term"].get("cond"):
+                m = re.fullmatch(r"\((\w+) < this->data_\.size\(\)\)", SN(lit(loops[0]["term"]["cond"])[0]))
+                iv = m.group(1) if m else None
+            if iv is None:
                 det.append("loop is not over [.., data_.size())")
-            i0 = [e for _, e in fn.events(lambda e: e.get("k") == "decl" and e.get("n") == "i")]
+                iv = "i"
+            i0 = [e for _, e in fn.events(lambda e: e.get("k") == "decl" and e.get("n") == iv)]
             if not i0 or i0[0].get("ip") != start:
                 det.append("loop starts at %s, expected %s" % (i0[0].get("ip") if i0 else None, start))
-            inc = [e for _, e in fn.events(lambda e: e.get("k") == "assign" and e.get("lp") == "i")]
-            if [e.get("op") for e in inc] != ["++"]:
+            inc = [e for _, e in fn.events(lambda e: e.get("k") == "assign" and e.get("lp") == iv)]
+            if [e.get("op") for e in inc] not in (["++"],) and [(e.get("op"), e.get("rp")) for e in inc] != [("+=", "1")]:
                 det.append("loop step %s" % [e.get("op") for e in inc])
-            ident = lambda e: (e.get("k") in ("assign",) and "getRemote(i)" in S(e.get("lhs"), al) and "operator()" in S(e.get("rhs"))) or \
-                (e.get("k") == "call" and e.get("op") == "=" and "getRemote(i)" in S(e.get("recv"), al) and
+            slot = "getRemote(%s)" % iv
+            ident = lambda e: (e.get("k") in ("assign",) and slot in S(e.get("lhs"), al) and "operator()" in S(e.get("rhs"))) or \
+                (e.get("k") == "call" and e.get("op") == "=" and slot in S(e.get("recv"), al) and
                  any("operator()" in S(a) for a in e.get("a", [])))
             body = loops[0]["succ"][0] if loops else None
             if body is not None:
@@ -134,7 +141,7 @@ def reducible(ctx, fx):
                     det.append("a pass through the loop body skips the identity store")
             if nm == "reduce":
                 mg = [e for _, e in fn.events(is_call(name="merge"))]
-                if len(mg) != 1 or S(mg[0]["a"][0], al) != "*this->data_.getLocal()" or "getRemote(i)" not in S(mg[0]["a"][1], al):
+                if len(mg) != 1 or S(mg[0]["a"][0], al) != "*this->data_.getLocal()" or slot not in S(mg[0]["a"][1], al):
                     det.append("merge arguments %s" % [[S(a, al) for a in e.get("a", [])] for e in mg])
                 else:
                     # merge before re-arming
@@ -357,28 +364,36 @@ def unionfind(ctx, fx):
         fn = ctx.fn(f)
         det = []
         cas = [e for _, e in fn.events(lambda e: e["k"] == "atomic" and e["kind"] == "cas")]
-        if len(cas) != 1 or cas[0]["p"] != "a->m_component" or [S(x) for x in cas[0].get("a", [])][:2] != ["a", "b"]:
-            det.append("link is %s" % [(e["p"], [S(x) for x in e.get("a", [])]) for e in cas])
+        # the two representatives are named by the link itself: X->m_component.compare_exchange(X, Y)
+        X = Y = None
+        if len(cas) == 1:
+            m = re.fullmatch(r"(\w+)->m_component", cas[0]["p"])
+            ar = [S(x) for x in cas[0].get("a", [])][:2]
+            if m and len(ar) == 2 and ar[0] == m.group(1) and re.fullmatch(r"\w+", ar[1]) and ar[1] != ar[0]:
+                X, Y = ar
+        if X is None:
+            det.append("link is %s, expected X->m_component.compare_exchange(X, Y)" % [(e["p"], [S(x) for x in e.get("a", [])]) for e in cas])
+            X, Y = "a", "b"
         if any(e["kind"] == "store" for _, e in fn.events(lambda e: e["k"] == "atomic")):
             det.append("plain store to a component pointer")
         fc = [S(e.get("recv")) for _, e in fn.events(is_call(name="findAndCompress"))]
-        if sorted(fc) != ["a", "b"]:
+        if sorted(fc) != sorted([X, Y]):
             det.append("representatives looked up for %s" % fc)
-        conds = [S(fn.branch(bid)[0]) for bid in fn.blocks if fn.branch(bid)]
-        if "(a == b)" not in conds or "(a < b)" not in conds:
+        eqs = SN({"k": "bin", "op": "==", "l": {"k": "ref", "n": X}, "r": {"k": "ref", "n": Y}})
+        lts = "(%s < %s)" % (X, Y)
+        conds = [SN(fn.branch(bid)[0]) for bid in fn.blocks if fn.branch(bid)]
+        if eqs not in conds or lts not in conds:
             det.append("conditions %s" % conds)
         sw = [e for _, e in fn.events(is_call(name="swap"))]
-        if len(sw) != 1 or fn.guarded_positions(lambda e: e is sw[0], lambda t: S(t) == "(a < b)", True):
-            det.append("direction normalisation (swap when a < b) missing")
+        if len(sw) != 1 or sorted(S(a) for a in sw[0].get("a", [])) != sorted([X, Y]) or \
+                fn.guarded_positions(lambda e: e is sw[0], lambda t: SN(t) == lts, True):
+            det.append("direction normalisation (swap when %s < %s) missing" % (X, Y))
         if cas:
-            for p, e in fn.events(lambda e: e is cas[0]):
-                if fn.reaches_without(lambda x: x is e, lambda x: x in sw) and False:
-                    pass
             isc = lambda t: t.get("k") == "call" and (t.get("name") or "").startswith("compare_exchange")
-            ret_b = lambda e: e.get("k") == "ret" and S(e.get("e")) == "b"
+            ret_b = lambda e: e.get("k") == "ret" and S(e.get("e")) == Y
             if fn.guarded_positions(ret_b, isc, True):
                 det.append("success reported without a successful CAS")
-            eq = lambda t: S(t) == "(a == b)"
+            eq = lambda t: SN(t) == eqs
             ret0 = lambda e: e.get("k") == "ret" and S(e.get("e")) in ("0", "nullptr")
             if fn.guarded_positions(ret0, eq, True):
                 det.append("null returned although the sets differ")
